@@ -99,7 +99,7 @@ theorem takeMsgRevoked_capture (b cap rest : Bytes) (h : takeMsgRevoked b = some
     ∃ n, capturePass takeOptMsgEntry (fun _ => true) cap.length cap 0 = some n := by
   unfold takeMsgRevoked at h
   split at h
-  · injection h with h; injection h with e _; subst e; exact ⟨0, by decide⟩
+  · injection h with h; injection h with e _; subst e; exact ⟨0, rfl⟩
   · cases h
   · rename_i c r _
     cases hc : capturePass takeOptMsgEntry (fun _ => true) c.length c 0 with
